@@ -389,9 +389,13 @@ func (m *streamWorld) element(row map[string]any) *streamv1.ElementValue {
 	if v.null&8 != 0 {
 		pia = streamNull
 	}
+	when := m.ts(vlib.Int(row, "t"))
+	if _, ok := row["sec"]; ok { // the concurrent driver spreads its elements over seconds
+		when = m.base.Add(time.Duration(vlib.Int(row, "sec")) * time.Second)
+	}
 	return &streamv1.ElementValue{
 		ElementId: fmt.Sprint(id),
-		Timestamp: timestamppb.New(m.ts(vlib.Int(row, "t"))),
+		Timestamp: timestamppb.New(when),
 		TagFamilies: []*modelv1.TagFamilyForWrite{
 			{Tags: []*modelv1.TagValue{
 				tagStr(m.seriesName(vlib.Int(row, "s"))), tagInt(int64(id)), tagInt(a), tagStr(b),
